@@ -30,3 +30,56 @@ package shmipc
 //@   ensures  r0 == nil ==> forall i in [old(*q.head), old(*q.tail)): using(modDistinct(i, old(*q.tail), q.cap)) ==> qelem(q,i,0) == old(qelem(q,i,0)) && qelem(q,i,1) == old(qelem(q,i,1)) && qelem(q,i,2) == old(qelem(q,i,2))
 //@   ensures  wfQueue(q)
 //@   modifies *q.tail, q.queueBytesOnMemory[0:len(q.queueBytesOnMemory)]
+
+//@ func (*queue).pop
+//@   requires wfQueue(q)
+//@   requires *q.head < 4611686018427387904   // the 64-bit logical index does not wrap
+//@   ensures  old(*q.head) < old(*q.tail) ==> err == nil && *q.head == old(*q.head) + 1 && *q.tail == old(*q.tail)
+//@   ensures  old(*q.head) < old(*q.tail) ==> e.seqID == old(qelem(q, *q.head, 0)) && e.offsetInShmBuf == old(qelem(q, *q.head, 1)) && e.status == old(qelem(q, *q.head, 2))
+//@   ensures  old(*q.head) >= old(*q.tail) ==> err == errQueueEmpty && *q.head == old(*q.head) && *q.tail == old(*q.tail)
+//@   ensures  forall k in [0, len(q.queueBytesOnMemory)): mem8(q.queueBytesOnMemory, k) == old(mem8(q.queueBytesOnMemory, k))
+//@   ensures  wfQueue(q)
+//@   modifies *q.head
+
+//@ func (*queue).size
+//@   requires wfQueue(q)
+//@   ensures  result == *q.tail - *q.head && 0 <= result && result <= q.cap
+//@   modifies nothing
+
+//@ func (*queue).isFull
+//@   requires wfQueue(q)
+//@   ensures  result <==> *q.tail - *q.head == q.cap
+//@   modifies nothing
+
+//@ func (*queue).isEmpty
+//@   requires wfQueue(q)
+//@   ensures  result <==> *q.tail == *q.head
+//@   modifies nothing
+
+// A queue header is usable when the slice really holds the header and the ring the header announces,
+// and the announced size does not wrap in the uint32 arithmetic of mappingQueueFromBytes.
+//@ pure queueBytesOK(data []byte, c int): bool = 0 <= c && 24 + 12*c < 4294967296 && len(data) >= 24 + 12*c && region(data) > 0
+
+//@ func mappingQueueFromBytes
+//@   requires queueBytesOK(data, mem32(data, 0))
+//@   ensures  result != nil && result.cap == mem32(data, 0)
+//@   ensures  ptrAt(result.head, data, 4) && ptrAt(result.tail, data, 12) && ptrAt(result.workingFlag, data, 20)
+//@   ensures  sameMem(result.queueBytesOnMemory, data, 24) && len(result.queueBytesOnMemory) == 12 * mem32(data, 0)
+//@   ensures  fresh(result)
+//@   modifies nothing
+
+//@ func createQueueFromBytes
+//@   requires queueBytesOK(data, cap)
+//@   ensures  result != nil && result.cap == cap && wfQueue(result) && *result.head == 0 && *result.tail == 0 && *result.workingFlag == 0
+//@   ensures  ptrAt(result.head, data, 4) && ptrAt(result.tail, data, 12) && ptrAt(result.workingFlag, data, 20)
+//@   ensures  sameMem(result.queueBytesOnMemory, data, 24) && len(result.queueBytesOnMemory) == 12 * cap
+//@   ensures  mem32(data, 0) == cap
+//@   ensures  forall k in [24, len(data)): mem8(data, k) == old(mem8(data, k))
+//@   ensures  fresh(result)
+//@   modifies data[0:24]
+
+//@ func createQueue
+//@   requires 24 + 12*cap < 4294967296
+//@   ensures  result != nil && result.cap == cap && wfQueue(result) && *result.head == 0 && *result.tail == 0
+//@   ensures  fresh(result)
+//@   modifies nothing
